@@ -6,12 +6,18 @@ From Coq Require Import Lia ZifyBool ZifyN ZifyNat.
 From Clvm Require Import Model.Machine Proofs.MachineBasics.
 Open Scope N_scope.
 
-(* the dialect's operator function obeys the budget contract *)
+(* the dialect's operator function obeys the budget contract: a success stays the same success
+   under every larger budget, and a different budget can only turn it into CostExceeded *)
 Definition dop_budget (d : dialect) : Prop :=
   forall o a m ext c v, d_op d o a m ext = Ok (c, v) ->
   forall m', (m <= m' -> d_op d o a m' ext = Ok (c, v)) /\
-             (c <= m' -> d_op d o a m' ext = Ok (c, v)) /\
              (d_op d o a m' ext = Ok (c, v) \/ d_op d o a m' ext = Err CostExceeded).
+
+(* ... and a success needs no more budget than the cost it reports (used for tightness only;
+   finding F6 - the pre-hard-fork unknown-operator cost wrapping 64 bits - violates it) *)
+Definition dop_tight (d : dialect) : Prop :=
+  forall o a m ext c v, d_op d o a m ext = Ok (c, v) ->
+  forall m', c <= m' -> d_op d o a m' ext = Ok (c, v).
 
 Section TwoBudgets.
   Variable d : dialect.
@@ -125,9 +131,9 @@ Section TwoBudgets.
     rel_res eq (d_op d o a m1 ext) (d_op d o a m2 ext).
   Proof.
     intros Hm. destruct (d_op d o a m1 ext) as [[c v]|e] eqn:E1.
-    - destruct (Hop _ _ _ _ _ _ E1 m2) as (H1 & _ & _). rewrite (H1 Hm). reflexivity.
+    - destruct (Hop _ _ _ _ _ _ E1 m2) as (H1 & _). rewrite (H1 Hm). reflexivity.
     - destruct (d_op d o a m2 ext) as [[c v]|e2] eqn:E2; cbn; [|exact I].
-      destruct (Hop _ _ _ _ _ _ E2 m1) as (_ & _ & [H|H]); congruence.
+      destruct (Hop _ _ _ _ _ _ E2 m1) as (_ & [H|H]); congruence.
   Qed.
 
   Lemma apply_op_sim s1 s2 cost m1 m2 :
